@@ -68,7 +68,8 @@ def prove(pid, cfg, tier):
     theorems = cfg["theorems"]
     res = {"obligations": len(theorems), "discharged": 0, "failed": [], "build_ok": True, "log": "",
            "axioms": {}}
-    rc, out = run(["lake", "build", module, "model"], cwd=LEAN, timeout=3600)
+    xmods = list(cfg.get("extra_modules") or [])   # further theorem modules of the same property
+    rc, out = run(["lake", "build", module] + xmods + ["model"], cwd=LEAN, timeout=3600)
     res["log"] = out[-4000:]
     if rc != 0:
         res["build_ok"] = False
@@ -83,6 +84,8 @@ def prove(pid, cfg, tier):
     ap = os.path.join(LEAN, "Audit", pid + ".lean")
     with open(ap, "w") as f:
         f.write(f"import {module}\n")
+        for m in xmods:
+            f.write(f"import {m}\n")
         for t in theorems:
             f.write(f"#print axioms {t['theorem']}\n")
     rc, out = run(["lake", "env", "lean", ap], cwd=LEAN, timeout=1800)
@@ -102,7 +105,7 @@ def prove(pid, cfg, tier):
         else:
             res["discharged"] += 1
     if tier == "thorough" and not res["failed"]:
-        rc, out = run(["lake", "env", "leanchecker", module], cwd=LEAN, timeout=3600)
+        rc, out = run(["lake", "env", "leanchecker", module] + xmods, cwd=LEAN, timeout=3600)
         res["leanchecker"] = "ok" if rc == 0 else out[-1500:]
         if rc != 0:
             res["failed"].append({"theorem": "(leanchecker)", "why": "kernel re-check failed", "detail": out[-1500:]})
